@@ -143,15 +143,26 @@ where
     let mut cx = Context::from_waker(w);
     let mut done = false;
     for _ in 0..64 {
-        match fut.as_mut().poll(&mut cx) {
-            Poll::Ready(r) => {
+        let polled = std::panic::catch_unwind(std::panic::AssertUnwindSafe(|| fut.as_mut().poll(&mut cx)));
+        match polled {
+            Err(_) => {
+                let (msg, loc) = crate::util::take_panic().unwrap_or_default();
+                // the future must not be touched again
+                std::mem::forget(fut);
+                return Err(format!(
+                    "panic:{}:{}|{msg} at {loc}",
+                    crate::util::panic_file(&loc),
+                    crate::util::panic_class(&msg)
+                ));
+            }
+            Ok(Poll::Ready(r)) => {
                 if let Err(e) = r {
                     return Err(format!("dispatcher error {e:?}"));
                 }
                 done = true;
                 break;
             }
-            Poll::Pending => {
+            Ok(Poll::Pending) => {
                 // let spawned/blocking work (none expected) make progress
                 tokio::task::yield_now().await;
             }
@@ -163,7 +174,14 @@ where
             mc_core::show_short(&out.borrow(), 200)
         ));
     }
-    drop(fut);
+    if std::panic::catch_unwind(std::panic::AssertUnwindSafe(move || drop(fut))).is_err() {
+        let (msg, loc) = crate::util::take_panic().unwrap_or_default();
+        return Err(format!(
+            "panic:{}:{}|{msg} at {loc}",
+            crate::util::panic_file(&loc),
+            crate::util::panic_class(&msg)
+        ));
+    }
     let dumps = std::mem::take(&mut *ctx.sink.borrow_mut());
     let n_req = dumps.iter().filter(|d| d.starts_with("@app_mw_pre")).count();
     if n_req != op.reqs.len() {
@@ -242,7 +260,32 @@ async fn run_history(
         let ai = alpha.iter().position(|a| a == op).unwrap();
         let (dumps, addrs) = match run_conn(&svc, &ctx, op, i).await {
             Ok(x) => x,
-            Err(e) => mc_core::machinery(format!("connection {i} of conn history failed: {e}")),
+            Err(e) => {
+                // the same connection works as first connection of a fresh instance (the reference
+                // exists), so failing here depends on the history
+                let names: Vec<String> = ops[..=i].iter().map(op_name).collect();
+                let (clause, signature, text) = match e.strip_prefix("panic:") {
+                    Some(rest) => {
+                        let (sig, text) = rest.split_once('|').unwrap_or((rest, rest));
+                        ("panic".to_string(), format!("conn:panic:{sig}"), format!("panicked: {text}"))
+                    }
+                    None => ("isolation-conn".to_string(), "conn:connection-failed".to_string(), e.clone()),
+                };
+                if verbose {
+                    println!("connection {i} {}: {text}", op_name(op));
+                }
+                return Some(Violation {
+                    property: "C11".into(),
+                    clause,
+                    signature,
+                    what: format!(
+                        "connection history [{}]: connection {i} fails although the same connection succeeds on a fresh instance — {text}",
+                        names.join(", ")
+                    ),
+                    replay: json!({"conn_history": ops[..=i].iter().map(|o| alpha.iter().position(|a| a == o).unwrap()).collect::<Vec<_>>()}),
+                    weight: ((i as u64 + 1) << 48) | weight_base,
+                });
+            }
         };
         res.requests += op.reqs.len() as u64;
         obs = (obs ^ ai as u64).wrapping_mul(0x100000001b3);
